@@ -17,7 +17,10 @@ def modelled : List String := [
   "babyjub.PointProjective.Affine",
   "babyjub.PublicKey.Point",
   "babyjub.PublicKey.VerifyMimc7",
-  "babyjub.PublicKey.VerifyPoseidon"
+  "babyjub.PublicKey.VerifyPoseidon",
+  "babyjub.<decls>@babyjub.go",
+  "babyjub.<decls>@eddsa.go",
+  "babyjub.<decls>@helpers.go"
 ]
 
 theorem source_pinned : modelled.all (same I3.Gen.fingerprints) = true := by decide +kernel
@@ -25,6 +28,6 @@ theorem source_pinned : modelled.all (same I3.Gen.fingerprints) = true := by dec
 theorem function_set_pinned : (["babyjub."] : List String).all (sameKeys I3.Gen.fingerprints) = true := by
   decide +kernel
 
-theorem modelled_nonempty : 9 = modelled.length := by decide
+theorem modelled_nonempty : 12 = modelled.length := by decide
 
 end I3.Props.C03
